@@ -494,6 +494,9 @@ class Rewriter:
             recv = b[rs:m.start()].strip()
             ty = kinds.get(name)
             cm = re.match(r'^(?:move\s+)?\|\s*([^|]*?)\s*\|\s*(.*)$', arg, re.S)
+            if ty == 'auto' and cm:
+                # Option's closure takes no argument, Result's takes the error
+                ty = 'option' if cm.group(1).strip() == '' else 'result'
             if name == 'unwrap_or':
                 if ty != 'option':
                     raise ExtractError('R13: unwrap_or on unknown type')
@@ -782,6 +785,20 @@ class Rewriter:
         # `if let (Err(AllocErr), Infallible) = (&res, fallibility)`  ==  res is Err and the caller asked for the infallible flavour
         b = self.sub('R20:err-and-infallible', r'if let \(Err\(AllocErr\), Infallible\) = \(&(\w+), (\w+)\)', r'if err_and_infallible(&\1, \2)', b)
         # `res?` converts crate::AllocErr through `impl From<AllocErr> for CollectionAllocErr` (a constant function)
+        # constructors / shrink_to_fit
+        b = self.sub('R20:dangling', r'\bNonNull::<T>::dangling\(\)|\bNonNull::dangling\(\)', 'dangling_T()', b)
+        b = self.map_calls(b, r'\ba\.alloc_zeroed', lambda m_, a: 'arena_alloc_zeroed(ar, %s)' % ', '.join(a), 'R20:arena-alloc-zeroed')
+        b = self.sub('R20:result-unwrap', r'(Layout::from_size_align\([^;]*?\))\.unwrap\(\)', r'res_unwrap(\1)', b)
+        b = self.sub('R20:model-type', r'(?<![\w:])RawVec \{', 'RawVecG {', b)
+        b = self.sub('R20:arena-field', r'(?m)^\s*a,\s*$', '', b)
+        b = self.sub('R20:arena-field', r',\s*a\s*\}', ' }', b)
+        b = self.sub('R20:arena-field', r'(?m)^\s*let a = self\.a;\s*$', '', b)
+        b = self.sub('R20:self-overwrite', r'\bptr::write\(self, RawVec::new_in\(a\)\);', '*self = RawVecG::new_in();', b)
+        b = self.sub('R20:model-type', r'(?<![\w:])RawVec::allocate_in\((\w+), (\w+), a\)', r'RawVecG::allocate_in(ar, \1, \2)', b)
+        b = self.map_calls(b, r'\bself\.(fallible_reserve_internal|infallible_reserve_internal|reserve_internal_or_panic)', lambda m_, a: None if a and a[0] == 'ar' else 'self.%s(ar, %s)' % (m_.group(1), ', '.join(a)), 'R12:thread-arena')
+        b = self.sub('R6:unreachable', r'\bunreachable!\(\)', 'unreachable_unchecked::<()>()', b)
+        b = self.sub('R20:variant-path', r'\bErr\(AllocErr\) =>', 'Err(CollectionAllocErr::AllocErr) =>', b)
+        b = self.sub('R20:diverging-stmt', r'\bhandle_alloc_error\(([^;{}]*)\);', r'handle_alloc_error::<()>(\1);', b)
         b = self.sub('R20:question-mark-from', r'\b(res)\?', r'(match \1 { Ok(v__) => v__, Err(_e__) => { return Err(CollectionAllocErr::AllocErr); } })', b)
         return b
 
